@@ -23,6 +23,8 @@ from . import clock as simclock
 
 SERVER_HOST = "sim.dashlive.test"
 SCRATCH_ROOT = Path(os.environ.get("DSIM_SCRATCH", "/dev/shm")) / f"dsim-{os.getpid()}"
+# response bodies that quote a path below the scratch directory (which carries the pid) must not change the trace digest
+_ROOT_BYTES = str(SCRATCH_ROOT).encode()
 
 
 class SimCrash(BaseException):
@@ -351,7 +353,8 @@ class World:
         target = parts.path + ("?" + parts.query if parts.query else "")
         self.trace.append(TraceRecord(
             seq=self.seq, t_us=simclock.CLOCK.us, actor=actor, method=method, target=target,
-            status=status, body_sha=hashlib.sha1(body).hexdigest()[:10], fault=fault))
+            status=status, body_sha=hashlib.sha1(body.replace(_ROOT_BYTES, b"<scratch>")).hexdigest()[:10],
+            fault=fault))
 
     def note(self, actor: str, what: str) -> None:
         """Non-request event in the trace (restart, clock jump, ...)."""
